@@ -64,7 +64,7 @@ def run_impl(ctx, case):
     from thejoker.thejoker import TheJoker
 
     n = case["n"]
-    lib = S.make_library(n, seed=case["seed"] % 1000, with_lnprior=True)
+    lib = S.make_library(n, seed=case["seed"] % 1000, with_lnprior=True, alt_units=case["seed"] % 3 == 0)
     rec = S.RecGen(case["seed"])
     joker = TheJoker(c02.real_prior(), rng=rec)
     stub = None
